@@ -343,9 +343,15 @@ func (w *worker[T, JobType]) freePoolNode(node *linkedlist.Node[pool.Node[JobTyp
 		node.Value.UpdateLastUsed()
 	}
 
-	// If queue length is high or we're under our idle worker target, keep this worker
-	if w.queues.Len() >= w.NumConcurrency() || enabledIdleWorkersRemover || w.pool.Len() < w.numMinIdleWorkers() {
+	// If queue length is high or idle workers are removed by their expiry, keep this worker
+	if w.queues.Len() >= w.NumConcurrency() || enabledIdleWorkersRemover {
 		w.pool.PushNode(node)
+		return
+	}
+
+	// Otherwise keep it only while we're under our idle worker target. The check and the insertion
+	// are one step: a TunePool shrinking the pool at the same moment must not leave the pool empty.
+	if w.pool.PushNodeIfBelow(node, w.numMinIdleWorkers()) {
 		return
 	}
 
@@ -598,15 +604,17 @@ func (w *worker[T, JobType]) TunePool(concurrency int) error {
 	shrinkPoolSize, minIdleWorkers := oldConcurrency-safeConcurrency, w.numMinIdleWorkers()
 
 	// if current concurrency is greater than the safe concurrency, shrink the pool size
-	for shrinkPoolSize > 0 && w.pool.Len() != minIdleWorkers {
-		if node := w.pool.PopBack(); node != nil {
-			w.pool.Remove(node)
-			node.Value.Stop()
-			w.pool.Cache.Put(node)
-			shrinkPoolSize--
-		} else {
+	// only idle workers above the minimum are removed, in one step with the length check: with fewer
+	// than the minimum in the pool (the others are busy or finishing) nothing is taken away
+	for shrinkPoolSize > 0 {
+		node := w.pool.PopBackIfAbove(minIdleWorkers)
+		if node == nil {
 			break
 		}
+
+		node.Value.Stop()
+		w.pool.Cache.Put(node)
+		shrinkPoolSize--
 	}
 
 	return nil
